@@ -329,11 +329,13 @@ Prods(sym) ==
          \cup (IF FaultOn("ArgumentsTypeMismatch")
                THEN {<<Mark("ArgumentsTypeMismatch")>> \o
                        CallRhs(c, Flat([j \in DOMAIN c.params |-> (IF j > 1 THEN <<Sym(",")>> ELSE <<>>)
-                                          \o (IF j = kw[1] THEN Culprit("ArgumentsTypeMismatch", VarRhs(kw[2], 0)) ELSE <<ArgFor(c.params[j])>>)]))
-                       : <<c, kw>> \in {<<x, jw>> \in Callees \X ((1..3) \X Usable) :
+                                          \o (IF j = kw[1] THEN Culprit("ArgumentsTypeMismatch", VarRhs(kw[2], kw[3])) ELSE <<ArgFor(c.params[j])>>)]))
+                       \* (the variable itself or an indexed part of it: a row of a matrix for the matrix, an element for a row)
+                       : <<c, kw>> \in {<<x, jw>> \in Callees \X ((1..3) \X Usable \X (0..2)) :
                                           /\ Callable(x) /\ x.name \notin ScopeNames /\ jw[1] <= Len(x.params)
-                                          /\ Scope[jw[2]].ty # x.params[jw[1]].ty
-                                          /\ (IsArr(Scope[jw[2]].ty) \/ IsArr(x.params[jw[1]].ty))}} ELSE {})
+                                          /\ Elem(Scope[jw[2]].ty, jw[3]) # UNK
+                                          /\ Elem(Scope[jw[2]].ty, jw[3]) # x.params[jw[1]].ty
+                                          /\ (IsArr(Elem(Scope[jw[2]].ty, jw[3])) \/ IsArr(x.params[jw[1]].ty))}} ELSE {})
          \cup (IF FaultOn("UndefinedProcedure")
                THEN {<<Mark("UndefinedProcedure")>> \o Culprit("UndefinedProcedure",
                        CallRhs([name |-> "undefinedproc", bind |-> ""], <<N("Expr", INT, "")>>))} ELSE {})
